@@ -26,7 +26,12 @@ var tlsVersions = []struct {
 	v    uint16
 }{{"1.0", tls.VersionTLS10}, {"1.1", tls.VersionTLS11}, {"1.2", tls.VersionTLS12}, {"1.3", tls.VersionTLS13}}
 
-var certKinds = []string{"none", "valid", "selfSigned", "otherCA", "expired", "wrongHost"}
+var certKinds = []string{"none", "valid", "selfSigned", "otherCA", "expired", "wrongHost",
+	// chains padded with certificates the peer holds no key for (TLS proves possession of the FIRST certificate's key only):
+	// its own self-signed / foreign-CA leaf followed by a copy of a genuine client leaf, of a genuine server leaf, of the CA
+	"selfSigned+genuineLeaf", "selfSigned+genuineServerLeaf", "selfSigned+caCert", "otherCA+genuineLeaf",
+	// and a genuine leaf followed by junk, which stays acceptable
+	"valid+selfSigned"}
 
 func leafFor(kind string, ca, other *tlsm.CA, host string, client bool) *tls.Certificate {
 	var c tls.Certificate
@@ -43,6 +48,21 @@ func leafFor(kind string, ca, other *tlsm.CA, host string, client bool) *tls.Cer
 		c = tlsm.Leaf(ca, tlsm.LeafOpts{Host: host, Expired: true, Client: client})
 	case "wrongHost":
 		c = tlsm.Leaf(ca, tlsm.LeafOpts{Host: "some.other.host", Client: client})
+	case "selfSigned+genuineLeaf":
+		c = tlsm.Leaf(ca, tlsm.LeafOpts{Host: host, SelfSigned: true, Client: client})
+		c.Certificate = append(c.Certificate, tlsm.Leaf(ca, tlsm.LeafOpts{Host: host, Client: client}).Certificate[0])
+	case "selfSigned+genuineServerLeaf":
+		c = tlsm.Leaf(ca, tlsm.LeafOpts{Host: host, SelfSigned: true, Client: client})
+		c.Certificate = append(c.Certificate, tlsm.Leaf(ca, tlsm.LeafOpts{Host: "kmip.test"}).Certificate[0])
+	case "selfSigned+caCert":
+		c = tlsm.Leaf(ca, tlsm.LeafOpts{Host: host, SelfSigned: true, Client: client})
+		c.Certificate = append(c.Certificate, ca.Cert.Raw)
+	case "otherCA+genuineLeaf":
+		c = tlsm.Leaf(other, tlsm.LeafOpts{Host: host, Client: client})
+		c.Certificate = append(c.Certificate, tlsm.Leaf(ca, tlsm.LeafOpts{Host: host, Client: client}).Certificate[0])
+	case "valid+selfSigned":
+		c = tlsm.Leaf(ca, tlsm.LeafOpts{Host: host, Client: client})
+		c.Certificate = append(c.Certificate, tlsm.Leaf(ca, tlsm.LeafOpts{Host: "junk.test", SelfSigned: true, Client: client}).Certificate[0])
 	}
 	return &c
 }
@@ -183,7 +203,7 @@ func impersonate(ca, other *tlsm.CA, certKind string, maxVer uint16) (connected 
 
 func runC16(r *Result, d *drv.Driver, tier string, seed int64, replay string) {
 	defer c16Sequences(r)
-	r.Rule = "exhaustive peer matrix against the real crypto/tls: a peer with certificate in {none, valid, self-signed, other CA, expired, wrong host} x max TLS version in {1.0, 1.1, 1.2, 1.3}, plus a plaintext peer, a peer that connects and leaves without sending anything, and one that leaves after the first bytes of a TLS record, " +
+	r.Rule = "exhaustive peer matrix against the real crypto/tls: a peer with certificate in {none, valid, self-signed, other CA, expired, wrong host, its own self-signed or foreign-CA leaf followed by a copy of a genuine client leaf / genuine server leaf / the CA certificate, a genuine leaf followed by junk} x max TLS version in {1.0, 1.1, 1.2, 1.3}, plus a plaintext peer, a peer that connects and leaves without sending anything, and one that leaves after the first bytes of a TLS record, " +
 		"attacks a Server (with read/write timeouts 2s, and with none) whose config (weak prior contents) went through DefaultServerTLSConfig - observed: session-auth / request-auth / handler invocations and whether a KMIP response came back; and a TLS server with each certificate x version impersonates towards a Client prepared by DefaultClientTLSConfig - observed: Connect result and application bytes received. Expected outcome = the model's handshake predicate. Plus client sequences: a trusting Client first, then a Client trusting only another CA against the same endpoint (TLS 1.2 and 1.3). distinct = one per matrix cell"
 	r.Exhaustive = true
 	ca, other := tlsm.NewCA("kmip-test-ca"), tlsm.NewCA("foreign-ca")
@@ -211,7 +231,7 @@ func runC16(r *Result, d *drv.Driver, tier string, seed int64, replay string) {
 		ev, resp, err := attackServer(ca, other, serverCert, c.kind, tlsVersions[c.ver].v, c.plaintext, c.timeout, c.probe)
 		r.eval(key, true)
 		// model predicate (Tls.serverHandshakeOk after defaultServer): TLS >= 1.2 and a chain to the pool, within validity
-		want := !c.plaintext && tlsVersions[c.ver].v >= tls.VersionTLS12 && (c.kind == "valid" || c.kind == "wrongHost")
+		want := !c.plaintext && tlsVersions[c.ver].v >= tls.VersionTLS12 && (c.kind == "valid" || c.kind == "wrongHost" || c.kind == "valid+selfSigned")
 		r.Stats[fmt.Sprintf("server-cell-served=%v", want)]++
 		if len(r.Samples) < 3 && (c.kind == "selfSigned" || c.kind == "valid") && c.ver >= 2 {
 			r.sample(map[string]interface{}{"cell": key, "server_events": ev, "response": resp})
@@ -235,7 +255,7 @@ func runC16(r *Result, d *drv.Driver, tier string, seed int64, replay string) {
 			key := fmt.Sprintf("impersonate cert=%s max=%s", k, tlsVersions[vi].name)
 			connected, app, err := impersonate(ca, other, k, tlsVersions[vi].v)
 			r.eval(key, true)
-			want := tlsVersions[vi].v >= tls.VersionTLS12 && k == "valid"
+			want := tlsVersions[vi].v >= tls.VersionTLS12 && (k == "valid" || k == "valid+selfSigned")
 			r.Stats[fmt.Sprintf("client-cell-connects=%v", want)]++
 			if err != nil {
 				r.find(Finding{Kind: "violation", What: "client misbehaved during the TLS matrix", Input: key, Actual: err.Error()})
